@@ -396,6 +396,8 @@ class ConnectionState:
         elif not self._selected and isinstance(cmd, CommandSelect):
             msg = cmd.command + b': Must select a mailbox first.'
             return ResponseBad(cmd.tag, msg)
+        if self._selected is not None:
+            self._selected.hide_expunged = False
         func_name = self._get_func_name(cmd)
         try:
             func: _CommandFunc = getattr(self, func_name)
